@@ -323,6 +323,7 @@ int main(int argc, char** argv) {
     if (argc < 2 || std::string(argv[1]) != "run") { std::cerr << "usage: c04 run\n"; return 2; }
     std::string line;
     Strs input;                       // strings of the current case (`s` lines)
+    std::string prefix;               // `px`: common prefix of the following `s` strings
     const ParamInfo* cfg_pi = nullptr;
     std::string cfg_repr, cfg_name;
     unsigned cfg_threads = 1, cfg_reps = 1;
@@ -331,7 +332,16 @@ int main(int argc, char** argv) {
         auto t = vh::tokens(line);
         if (t.empty()) { vh::answer(""); continue; }
         if (t[0][0] == '#') { vh::answer(line); continue; }
-        if (t[0] == "case") { input.clear(); cfg_pi = nullptr; vh::answer("case"); continue; }
+        if (t[0] == "case") { input.clear(); prefix.clear(); cfg_pi = nullptr; vh::answer("case"); continue; }
+        if (t[0] == "px" && t.size() == 3) {
+            // px <pattern> <len>: the following strings start with the pattern repeated up to <len> characters
+            Strs pat; size_t len = strtoull(t[2].c_str(), nullptr, 10);
+            if (!parse_strs(t[1], pat) || pat.size() != 1 || pat[0].empty() || t[1] == "none" || len > 100000) { vh::answer("bad-op"); continue; }
+            prefix.clear();
+            while (prefix.size() < len) prefix += pat[0];
+            prefix.resize(len);
+            vh::answer("ok"); continue;
+        }
         if (t[0] == "cfg" && t.size() == 6) {
             // cfg <params> <repr> <threads> <lcp> <reps>
             cfg_pi = find_params(t[1]);
@@ -346,7 +356,7 @@ int main(int argc, char** argv) {
             Strs one;
             size_t cnt = t.size() == 3 ? strtoull(t[2].c_str(), nullptr, 10) : 1;
             if (!parse_strs(t[1], one) || one.size() != 1 || t[1] == "none" || cnt < 1 || cnt > 100000) { vh::answer("bad-op"); continue; }
-            for (size_t i = 0; i < cnt; ++i) input.push_back(one[0]);
+            for (size_t i = 0; i < cnt; ++i) input.push_back(prefix + one[0]);
             vh::answer("ok");
         } else if (t[0] == "go" && t.size() == 1) {
             if (!cfg_pi) { vh::answer("bad-op"); continue; }
